@@ -399,3 +399,36 @@ mutant("c20-duplicate-call", "C20", (MACROS, "            call_tokens.extend(quo
 mutant("c20-type-dependent", "C20", (MACROS, "        let field_name = field.ident.clone();\n\n        if field_name.is_some() {\n            call_tokens.extend(quote!(\n                self.#field_name.update(env, rng);\n            ));\n        }\n    }\n\n    let output = quote! {\n        impl bourse_de::agents::AgentSet",
        "        let field_name = field.ident.clone();\n\n        if field_name.is_some() && !matches!(field.vis, syn::Visibility::Inherited) {\n            call_tokens.extend(quote!(\n                self.#field_name.update(env, rng);\n            ));\n        }\n    }\n\n    let output = quote! {\n        impl bourse_de::agents::AgentSet"), expect=["macro"])
 mutant("c20-body-twice", "C20", (MACROS, "            fn update<R: rand::RngCore>(&mut self, env: &mut bourse_de::Env, rng: &mut R) {\n                #call_tokens\n            }", "            fn update<R: rand::RngCore>(&mut self, env: &mut bourse_de::Env, rng: &mut R) {\n                #call_tokens\n                #call_tokens\n            }"), expect=["macro", "generated"])
+
+# ------------------------------------------------------------------------------- C17
+mutant("c17-abs-removed", "C17", (MOM, "                (m, p.abs())", "                (m, p)", ), expect="sign", count=2)
+mutant("c17-abs-removed-market-only", "C17", (MOM, "                (m, p.abs())", "                (m, p)", ), expect="sign", first=True)
+mutant("c17-sell-calls-buy-helper", "C17", (MOM, """                } else if m < 0.0 {
+                    let order_id = common::place_sell_limit_order(""", """                } else if m < 0.0 {
+                    let order_id = common::place_buy_limit_order("""), expect="sign")
+mutant("c17-both-branches-positive", "C17", (MOM, """                } else if m < 0.0 {
+                    env.place_order(Side::Ask, self.params.trade_vol, *trader_id, None)""", """                } else if m >= 0.0 {
+                    env.place_order(Side::Ask, self.params.trade_vol, *trader_id, None)"""), expect="sign")
+mutant("c17-bias-in-probability", "C17", (MOM, "        let p_limit = self.params.order_ratio * p_market;\n\n        for trader_id in self.trader_ids.iter() {\n            if rng.gen::<f64>() < p_limit {\n                if m > 0.0 {\n                    let order_id = common::place_buy_limit_order(\n",
+       "        let p_limit = self.params.order_ratio * p_market + 0.1;\n\n        for trader_id in self.trader_ids.iter() {\n            if rng.gen::<f64>() < p_limit {\n                if m > 0.0 {\n                    let order_id = common::place_buy_limit_order(\n"), expect=["sign", "parity"])
+mutant("c17-decay-misapplied", "C17", (MOM, "                    self.momentum * (1.0 - self.params.decay) + self.params.decay * (mid_price - p);\n                let p = self.params.demand * f64::tanh(self.params.scale * m) / self.n;\n                (m, p.abs())\n            }\n            None => (0.0, 0.0),\n        };\n\n        let p_limit = self.params.order_ratio * p_market;\n\n        for trader_id in self.trader_ids.iter() {\n            if rng.gen::<f64>() < p_limit {\n                if m > 0.0 {\n                    let order_id = common::place_buy_limit_order(\n",
+       "                    self.momentum * (1.0 - self.params.decay) + self.params.decay * (p - mid_price);\n                let p = self.params.demand * f64::tanh(self.params.scale * m) / self.n;\n                (m, p.abs())\n            }\n            None => (0.0, 0.0),\n        };\n\n        let p_limit = self.params.order_ratio * p_market;\n\n        for trader_id in self.trader_ids.iter() {\n            if rng.gen::<f64>() < p_limit {\n                if m > 0.0 {\n                    let order_id = common::place_buy_limit_order(\n"), expect="recurrence")
+mutant("c17-last-price-not-updated", "C17", (MOM, "        self.momentum = m;\n        self.last_price = Some(mid_price);\n\n        self.orders = live_orders;\n    }\n}\n\n/// Agents that place trades conditioned on price history", "        self.momentum = m;\n        if self.last_price.is_none() {\n            self.last_price = Some(mid_price);\n        }\n\n        self.orders = live_orders;\n    }\n}\n\n/// Agents that place trades conditioned on price history"), expect="recurrence")
+
+# ------------------------------------------------------------------------------- C16
+mutant("c16-sell-bound-removed", "C16", (COMMON, "    let price = (mid_price + dist).min(max_tick_price(tick_size));\n    let price = round_price_up(price, tick_size);\n    env.place_order(Side::Ask, trade_vol, trader_id, Some(price))",
+       "    let price = mid_price + dist;\n    let price = round_price_up(price, tick_size);\n    env.place_order(Side::Ask, trade_vol, trader_id, Some(price))"), expect="grid")
+mutant("c16-bound-off-grid", "C16", (COMMON, "    (f64::from(Price::MAX) / tick_size).floor() * tick_size", "    f64::from(Price::MAX) - tick_size"), expect="grid")
+mutant("c16-buy-rounded-up", "C16", (COMMON, "    let price = mid_price - dist;\n    let price = round_price_down(price, tick_size);\n    env.place_order(Side::Bid, trade_vol, trader_id, Some(price))", "    let price = mid_price - dist;\n    let price = round_price_up(price, tick_size);\n    env.place_order(Side::Bid, trade_vol, trader_id, Some(price))"), expect=["grid", "direction"])
+mutant("c16-abs-dropped", "C16", (COMMON, "    let dist = price_dist.sample(rng).abs();\n    let price = mid_price - dist;\n    let price = round_price_down(price, tick_size);\n    env.place_order(asset,", "    let dist = price_dist.sample(rng);\n    let price = mid_price - dist;\n    let price = round_price_down(price, tick_size);\n    env.place_order(asset,"), expect=["grid", "direction"])
+mutant("c16-cancel-filter-weak", "C16", (COMMON, "        .filter(|x| env.order_status(**x) == Status::Active);\n\n    let (live_orders, to_cancel): (Vec<OrderId>, Vec<OrderId>)", "        .filter(|x| env.order_status(**x) != Status::Filled);\n\n    let (live_orders, to_cancel): (Vec<OrderId>, Vec<OrderId>)"), expect="cancel")
+mutant("c16-keep-test-gt", "C16", (COMMON, "        .partition(|_| rng.gen::<f32>() >= p_cancel);", "        .partition(|_| rng.gen::<f32>() > p_cancel);", ), expect="bernoulli", first=True)
+mutant("c16-activity-le", "C16", (RAND, "                match p < self.activity_rate {", "                match p <= self.activity_rate {", ), expect="bernoulli", first=True)
+mutant("c16-trader-id-shifted", "C16", (RAND, "                                    TraderId::try_from(n).unwrap(),\n                                    Some(tick * self.tick_size),\n                                )\n                                .unwrap(),\n                            )\n                        }\n                    }\n                    false => *i,\n                }\n            })\n            .collect();\n\n        self.orders = new_orders;\n    }\n}\n\n/// Agents that place orders with uniformly",
+       "                                    TraderId::try_from(n + 1).unwrap(),\n                                    Some(tick * self.tick_size),\n                                )\n                                .unwrap(),\n                            )\n                        }\n                    }\n                    false => *i,\n                }\n            })\n            .collect();\n\n        self.orders = new_orders;\n    }\n}\n\n/// Agents that place orders with uniformly"), expect="ownership")
+mutant("c16-extra-unwrap", "C16", (NOISE, "        let mid_price = env.get_orderbook().mid_price();\n\n        for trader_id in self.trader_ids.iter() {\n            if rng.gen::<f32>() < self.params.p_limit {", "        let mid_price = env.get_orderbook().mid_price();\n        let _first = self.orders.first().unwrap();\n\n        for trader_id in self.trader_ids.iter() {\n            if rng.gen::<f32>() < self.params.p_limit {"), expect="no-abort")
+mutant("c16-random-cancel-any", "C16", (RAND, "                        if (i.is_some()) && (env.order_status(i.unwrap()) == Status::Active) {\n                            env.cancel_order(i.unwrap());\n                            None\n                        } else {\n                            let side = [Side::Ask, Side::Bid].choose(rng).unwrap();\n                            let tick = rng.gen_range(self.tick_range.0..self.tick_range.1);\n                            let vol = rng.gen_range(self.vol_range.0..self.vol_range.1);\n                            Some(\n                                env.place_order(\n                                    *side,",
+       "                        if i.is_some() {\n                            env.cancel_order(i.unwrap());\n                            None\n                        } else {\n                            let side = [Side::Ask, Side::Bid].choose(rng).unwrap();\n                            let tick = rng.gen_range(self.tick_range.0..self.tick_range.1);\n                            let vol = rng.gen_range(self.vol_range.0..self.vol_range.1);\n                            Some(\n                                env.place_order(\n                                    *side,"), expect="random")
+mutant("c16-noise-wrong-vol", "C16", (NOISE, "                    true => env\n                        .place_order(Side::Bid, self.params.trade_vol, *trader_id, None)\n                        .unwrap(),", "                    true => env\n                        .place_order(Side::Bid, *trader_id, self.params.trade_vol, None)\n                        .unwrap(),"), expect="ownership")
+mutant("c16-market-agent-other-asset-mid", "C16", (NOISE, "        let mid_price = env.get_market().get_order_book(self.asset).mid_price();", "        let mid_price = env.get_market().get_order_book(0).mid_price();"), expect="ownership")
+mutant("c16-sell-on-bid-side", "C16", (COMMON, "    env.place_order(asset, Side::Ask, trade_vol, trader_id, Some(price))", "    env.place_order(asset, Side::Bid, trade_vol, trader_id, Some(price))"), expect="direction")
